@@ -521,7 +521,10 @@ def split_inits(text):
 def proj_C03(lhs, o, t):
     if lhs[0] != "E" or o["cls"] != "ok": return ()
     return (o.get("after"), o.get("spec"), o.get("p"))
-def oracle_C03(lhs, o, t):
+def oracle_C03(lhs, o, t, om=None):
+    if lhs[0] == "E":
+        w = oracle_need(lhs, o, t, om)
+        if w: return w
     if lhs[0] != "E" or o["cls"] != "ok": return None
     p = probe_fields(o.get("p"))
     if p is None or not p["ok"]: return f"the emplaced bytes do not validate: {o.get('p')}"
@@ -533,11 +536,34 @@ def oracle_C03(lhs, o, t):
 def proj_C15(lhs, o, t):
     if lhs[0] not in "EF": return ()
     return (o["cls"], o.get("kind"))
-def oracle_C15(lhs, o, t):
+def need_of(om):
+    """the specified size printed by the model (`sizeSpec`; None when the content is not representable, `Rep`)"""
+    v = (om or {}).get("need")
+    if v is None: return "absent"
+    return None if v == "unrep" else int(v)
+def oracle_need(lhs, o, t, om):
+    """acceptance is exact (theorem `emplaceU_acc`), checked on the implementation: an aligned buffer is accepted iff the content
+    is representable and its specified size fits; an accepted value has exactly that size()"""
+    kind, tid, a16, init, pre = lhs_fields(lhs)
+    n = hexlen(pre)
+    need = need_of(om)
+    if need == "absent" or a16 % t["align"] != 0 or o["cls"] not in ("ok", "err"): return None
+    fits = need is not None and need <= n
+    if o["cls"] == "ok" and not fits:
+        return f"a {n}-byte buffer was accepted, the content needs {need if need is not None else 'more than the length type can express'}"
+    if o["cls"] == "err" and fits and n >= t["min"]:
+        return f"a {n}-byte aligned buffer was refused with {o['res']}, the content needs {need} bytes"
+    if o["cls"] == "ok":
+        p = probe_fields(o.get("p"))
+        if p and p["ok"] and p["z"] != need: return f"size() of the result is {p['z']}, the specified content occupies {need}"
+    return None
+def oracle_C15(lhs, o, t, om=None):
     if lhs[0] not in "EF": return None
     kind, tid, a16, init, pre = lhs_fields(lhs)
     n = hexlen(pre)
     if o["cls"] in ("PANIC", "MEMFAULT"): return f"emplacement ended with {o['cls']}"
+    w = oracle_need(lhs, o, t, om)
+    if w: return w
     if a16 % t["align"] != 0:
         if not (o["cls"] == "err" and o["kind"] == "badAlign"): return f"misaligned buffer (address % {t['align']} = {a16 % t['align']}) gave {o['res']} instead of BadAlign"
         return None
@@ -546,7 +572,7 @@ def oracle_C15(lhs, o, t):
         return None
     if o["cls"] == "err" and o["kind"] != "insufficientSize": return f"aligned buffer refused with {o['res']}"
     if o["cls"] == "ok" and lhs[0] == "E":
-        return oracle_C03(lhs, o, t)     # "accepted and then satisfies C03"
+        return oracle_C03(lhs, o, t, om)     # "accepted and then satisfies C03"
     return None
 def post_C15(cases):
     """once an aligned buffer of some length is accepted, every longer one is accepted too"""
@@ -600,9 +626,11 @@ def oracle_C18(lhs, o, t, om):
 def proj_C20(lhs, o, t):
     if lhs[0] != "F": return ()
     return (o.get("res"), o.get("after"), o.get("p"))
-def oracle_C20(lhs, o, t):
+def oracle_C20(lhs, o, t, om=None):
     if lhs[0] != "F": return None
     if o["cls"] in ("PANIC", "MEMFAULT"): return f"default_in_place ended with {o['cls']}"
+    w = oracle_need(lhs, o, t, om)
+    if w: return w
     if o["cls"] == "ok":
         p = probe_fields(o.get("p"))
         if p is None or not p["ok"]: return f"the default value does not validate: {o.get('p')}"
@@ -986,10 +1014,10 @@ PROPS = {
     "C02": dict(module="FV.Props.C02Accept", theorems=["FV.Props.C02_view_within", "FV.Props.C02_truncation_validates", "FV.Props.C02_deep_read_total", "FV.Props.C02_gate", "FV.Props.C02_fields_accept_iff", "FV.Props.C02_vec_accepts_iff", "FV.Props.C02_str_accepts_iff", "FV.Props.C02_enum_accepts_iff", "FV.Props.C02_flex_accepts_iff"], suites=["bytes"], proj=proj_C02, oracle=oracle_C02),
     "C04": dict(module="FV.Props.C04", theorems=["FV.Props.C04_view_fits", "FV.Props.C04_ceil_least", "FV.Props.C04_floor_greatest", "FV.Props.C04_positions_eq_c", "FV.Props.C04_struct_size_eq_c", "FV.Props.C04_enum_data_offset_eq_c", "FV.Props.C04_vec_data_offset_eq_c"], suites=["bytes"], proj=proj_C04, oracle=oracle_C04),
     "C05": dict(module="FV.Props.C05", theorems=["FV.Props.C05_size_exact", "FV.Props.C05_truncation_same_content"], suites=["bytes", "emplace"], proj=proj_C05, oracle=oracle_C05),
-    "C03": dict(module="FV.Props.C03Full", theorems=["FV.Props.C03_emplace_reads_back", "FV.Props.C03_portable_image_is_serialisation", "FV.Props.C03_emplace_validates_partial", "FV.Props.C03_vec_from_iterator", "FV.emplaceU_ok", "FV.emplaceU_content", "FV.flexFill_spec", "FV.flexFill_content"], suites=["emplace"], proj=proj_C03, oracle=oracle_C03),
-    "C15": dict(module="FV.Props.C15", theorems=["FV.Props.C15_emplace_total_partial", "FV.Props.C15_vec_accepts_iff_fits"], suites=["emplace"], proj=proj_C15, oracle=oracle_C15, post=post_C15),
+    "C03": dict(module="FV.Props.C03Full", theorems=["FV.Props.C03_emplace_reads_back", "FV.Props.C03_portable_image_is_serialisation", "FV.Props.C03_emplace_validates_partial", "FV.Props.C03_large_enough_is_accepted", "FV.Props.C03_vec_from_iterator", "FV.emplaceU_ok", "FV.emplaceU_content", "FV.emplaceU_acc", "FV.repB_iff", "FV.flexFill_spec", "FV.flexFill_content"], suites=["emplace"], proj=proj_C03, oracle=oracle_C03),
+    "C15": dict(module="FV.Props.C15", theorems=["FV.Props.C15_emplace_total", "FV.Props.C15_accepts_iff_fits", "FV.Props.C15_vec_accepts_iff_fits", "FV.emplaceU_acc", "FV.flexFill_acc", "FV.repB_iff"], suites=["emplace"], proj=proj_C15, oracle=oracle_C15, post=post_C15),
     "C18": dict(module="FV.Props.C18", theorems=["FV.Props.C18_vec_from_iterator_partial", "FV.Props.C18_flex_from_iterator_partial", "FV.Props.C18_nested_enum_counterexample"], suites=["emplace"], proj=proj_C18, oracle=oracle_C18),
-    "C20": dict(module="FV.Props.C20", theorems=["FV.Props.C20_vec_default_partial", "FV.Props.C20_default_valid_partial", "FV.Props.C20_default_content", "FV.Props.C20_str_default_partial", "FV.Props.C20_flex_default_partial"], suites=["emplace"], proj=proj_C20, oracle=oracle_C20, post=post_C20),
+    "C20": dict(module="FV.Props.C20", theorems=["FV.Props.C20_vec_default_partial", "FV.Props.C20_default_valid_partial", "FV.Props.C20_default_content", "FV.Props.C20_str_default_partial", "FV.Props.C20_flex_default_partial", "FV.Props.C20_default_size", "FV.Props.C20_empty_always_accepted"], suites=["emplace"], proj=proj_C20, oracle=oracle_C20, post=post_C20),
     "C11": dict(module="FV.Props.C11", theorems=["FV.Props.C11_vec_step_refines", "FV.Props.C11_history", "FV.Props.C11_valid_gives_invariant"], suites=["ops"], proj=proj_C11, oracle=oracle_C11),
     "C12": dict(module="FV.Props.C12", theorems=["FV.Props.C12_valid_iff_sequence", "FV.Props.C12_truncate", "FV.Props.C12_pop", "FV.Props.C12_push", "FV.Props.C12_pushed_item_content", "FV.Props.C12_history"], suites=["ops"], proj=proj_C12, oracle=oracle_C12, post=post_witness("C12")),
     "C13": dict(module="FV.Props.C13", theorems=["FV.Props.C13_vec_refused_unchanged", "FV.Props.C13_flex_push_refused_unchanged"], suites=["ops"], proj=proj_C13, oracle=oracle_C13),
